@@ -128,6 +128,13 @@ def _match(entry, case):
     for k, v in (entry.get('match') or {}).items():
         if inp.get(k) != v:
             return False
+    cond = entry.get('when')
+    if cond:
+        try:
+            if not eval(cond, {'__builtins__': {'len': len, 'abs': abs, 'min': min, 'max': max, 'sum': sum}}, dict(inp)):
+                return False
+        except Exception:
+            return False
     sub = entry.get('what_contains')
     if sub and sub not in case.get('what', ''):
         return False
@@ -234,7 +241,7 @@ class Run:
                 json.dump(c, f, indent=1, sort_keys=True)
             reported.append((c, path))
         for eid, (ent, n) in known_hit.items():
-            print('KNOWN-FINDING: property=%s %s [%s; %d reproducing case(s) this run]'
+            print('KNOWN-FINDING: property=%s %s [%s; %d matching case(s) this run, up to 3 replayed]'
                   % (self.pid, ent['what'], eid, n))
         for c, path in reported[:40]:
             print('VIOLATION property=%s replay=%s' % (self.pid, path))
